@@ -206,7 +206,8 @@ func CheckTableNamesMatch(parsedQuery sqlparser.Statement, setOfTables map[strin
 		atLeastOneTableNameMatch, allTableNamesMatch = checkTableExprsMatch(query.From, setOfTables)
 		break
 	case *sqlparser.Insert:
-		if setOfTables[query.Table.Name.String()] {
+		// the same spelling the SELECT branch looks tables up by: the printed table name with its qualifier
+		if setOfTables[sqlparser.String(query.Table)] {
 			atLeastOneTableNameMatch = true
 			allTableNamesMatch = true
 		} else {
